@@ -46,6 +46,10 @@ pub struct Scn {
     /// frame out of its queue - a worker starved of CPU or blocked in a slow log sink while the dispatcher runs ahead
     #[serde(default)]
     pub slow_worker_ns: u64,
+    /// via_analyzer: the capture is cancelled while the packet source hands over the frame with this index; the
+    /// reference is the sequential analysis of the frames taken before it
+    #[serde(default)]
+    pub cancel_after: Option<usize>,
 }
 
 /// keeps the model channel's on-receive hook installed for the lifetime of the value
@@ -149,10 +153,14 @@ fn run_eq(s: &Scn, st: &mut RunStats, check_probe_only: bool) -> Result<(), Viol
     let kind = s.cfg.kind;
     let mut all: Vec<Timed> = s.trace.clone();
     all.extend(s.probe.iter().cloned());
-    let seq_all = sequential_gap(&s.cfg, &all, s.idle_gap)?;
+    let taken = s.cancel_after.map(|k| k.min(all.len())).unwrap_or(all.len());
+    if s.cancel_after.is_some() {
+        st.fault("capture_cancelled_part_way");
+    }
+    let seq_all = sequential_gap(&s.cfg, &all[..taken], s.idle_gap)?;
     let seq_probe_fresh = if s.probe.is_empty() { vec![] } else { sequential(&s.cfg, &s.probe)? };
     let n = all.len();
-    let plan = Arc::new(ExecPlan { via_analyzer: s.via_analyzer, cfg: s.cfg.clone(), dispatchers: vec![all.iter().map(|p| p.frame.clone()).collect()], stats_calls: 0, wait_for: None, consumer_gone_after: None, shutdown_after_yields: None, idle_gap: s.idle_gap, reinit_pool: s.reinit_pool });
+    let plan = Arc::new(ExecPlan { via_analyzer: s.via_analyzer, cfg: s.cfg.clone(), dispatchers: vec![all.iter().map(|p| p.frame.clone()).collect()], stats_calls: 0, wait_for: None, consumer_gone_after: None, shutdown_after_yields: None, idle_gap: s.idle_gap, reinit_pool: s.reinit_pool, cancel_after: s.cancel_after });
     st.evals = 0;
     let mut any = false;
     let _slow = SlowWorker::install(s.slow_worker_ns);
@@ -485,7 +493,7 @@ impl Prop for C10 {
             cfg.workers = *r.pick(&[2usize, 2, 3, 4]);
             // the TCP analyzer tracks timestamps per direction: two entries per connection
             cfg.cap = if kind == PoolKind::Tcp { 2 * n } else { n };
-            return Scn { slow_worker_ns: 0, idle_gap: None, reinit_pool: false, db_variant: 0, cfg, trace, probe: vec![], via_analyzer: false, schedules: vec![r.next_u64()], iters: 2, sched: Sched::Random };
+            return Scn { cancel_after: None, slow_worker_ns: 0, idle_gap: None, reinit_pool: false, db_variant: 0, cfg, trace, probe: vec![], via_analyzer: false, schedules: vec![r.next_u64()], iters: 2, sched: Sched::Random };
         }
         let n = r.urange(2, tier.pick(6, 12));
         let trace = gen_trace(r, kind, n, true);
@@ -507,7 +515,9 @@ impl Prop for C10 {
         let db_variant = if kind != PoolKind::Tls && r.chance(1, 4) { 1 + r.below(crate::sut::DB_VARIANTS as u64) as u32 } else { 0 };
         // fault, every other TCP scenario that goes through the analyzer's own loop: a slow worker (seconds per frame)
         let slow_worker_ns = if via && kind == PoolKind::Tcp && r.chance(1, 2) { *r.pick(&[1_500_000_000u64, 3_000_000_000, 10_000_000_000]) } else { 0 };
-        Scn { slow_worker_ns, idle_gap, reinit_pool, db_variant, cfg, trace, probe: vec![], via_analyzer: via, schedules: (0..n_sched).map(|_| r.next_u64()).collect(), iters: tier.pick(8, 20), sched }
+        // fault, every other scenario through the analyzer's own loop: the application cancels the run part-way
+        let cancel_after = if via && !reinit_pool && slow_worker_ns == 0 && r.chance(1, 2) && trace.len() > 3 { Some(r.urange(1, trace.len() - 1)) } else { None };
+        Scn { cancel_after, slow_worker_ns, idle_gap, reinit_pool, db_variant, cfg, trace, probe: vec![], via_analyzer: via, schedules: (0..n_sched).map(|_| r.next_u64()).collect(), iters: tier.pick(8, 20), sched }
     }
 
     fn run(s: &Scn, st: &mut RunStats) -> Result<(), Violation> {
@@ -546,7 +556,7 @@ impl Prop for C08Pool {
         cfg.workers = *r.pick(&[1usize, 2, 3, 4, 8]);
         cfg.batch = *r.pick(&[1usize, 2, 4, 32]);
         let n_sched = tier.pick(2, 8);
-        Scn { slow_worker_ns: 0, idle_gap: None, reinit_pool: false, db_variant: 0, cfg, trace, probe: vec![], via_analyzer: false, schedules: (0..n_sched).map(|_| r.next_u64()).collect(), iters: tier.pick(6, 12), sched: Sched::Random }
+        Scn { cancel_after: None, slow_worker_ns: 0, idle_gap: None, reinit_pool: false, db_variant: 0, cfg, trace, probe: vec![], via_analyzer: false, schedules: (0..n_sched).map(|_| r.next_u64()).collect(), iters: tier.pick(6, 12), sched: Sched::Random }
     }
 
     fn run(s: &Scn, st: &mut RunStats) -> Result<(), Violation> {
@@ -613,7 +623,7 @@ impl Prop for C01Pool {
         // one run in three goes through the analyzer's own parallel capture loop, which ends the run itself
         let via_analyzer = r.chance(1, 3);
         let n_sched = tier.pick(2, 6);
-        Scn { slow_worker_ns: 0, idle_gap: None, reinit_pool: false, db_variant: if r.chance(1, 4) { 1 + r.below(crate::sut::DB_VARIANTS as u64) as u32 } else { 0 }, cfg, trace, probe, via_analyzer, schedules: (0..n_sched).map(|_| r.next_u64()).collect(), iters: tier.pick(4, 10), sched: Sched::Random }
+        Scn { cancel_after: None, slow_worker_ns: 0, idle_gap: None, reinit_pool: false, db_variant: if r.chance(1, 4) { 1 + r.below(crate::sut::DB_VARIANTS as u64) as u32 } else { 0 }, cfg, trace, probe, via_analyzer, schedules: (0..n_sched).map(|_| r.next_u64()).collect(), iters: tier.pick(4, 10), sched: Sched::Random }
     }
 
     fn run(s: &Scn, st: &mut RunStats) -> Result<(), Violation> {
@@ -677,7 +687,7 @@ impl Prop for C15Pool {
         let mut cfg = gen_cfg(r, kind, trace.len());
         cfg.filter = Some(super::c15::gen_filter(r, &trace));
         let n_sched = tier.pick(2, 6);
-        Scn { slow_worker_ns: 0, idle_gap: None, reinit_pool: false, db_variant: 0, cfg, trace, probe: vec![], via_analyzer: r.chance(1, 4), schedules: (0..n_sched).map(|_| r.next_u64()).collect(), iters: tier.pick(4, 10), sched: Sched::Random }
+        Scn { cancel_after: None, slow_worker_ns: 0, idle_gap: None, reinit_pool: false, db_variant: 0, cfg, trace, probe: vec![], via_analyzer: r.chance(1, 4), schedules: (0..n_sched).map(|_| r.next_u64()).collect(), iters: tier.pick(4, 10), sched: Sched::Random }
     }
 
     fn run(s: &Scn, st: &mut RunStats) -> Result<(), Violation> {
@@ -689,7 +699,7 @@ impl Prop for C15Pool {
         let mut unfiltered = s.cfg.clone();
         unfiltered.filter = None;
         let expect = sequential(&unfiltered, &sub)?;
-        let plan = Arc::new(ExecPlan { via_analyzer: s.via_analyzer, cfg: s.cfg.clone(), dispatchers: vec![s.trace.iter().map(|p| p.frame.clone()).collect()], stats_calls: 0, wait_for: None, consumer_gone_after: None, shutdown_after_yields: None, idle_gap: None, reinit_pool: false });
+        let plan = Arc::new(ExecPlan { via_analyzer: s.via_analyzer, cfg: s.cfg.clone(), dispatchers: vec![s.trace.iter().map(|p| p.frame.clone()).collect()], stats_calls: 0, wait_for: None, consumer_gone_after: None, shutdown_after_yields: None, idle_gap: None, reinit_pool: false, cancel_after: None });
         let n_adm = admit.iter().filter(|a| **a == Some(true)).count();
         let n_rej = admit.iter().filter(|a| **a == Some(false)).count();
         st.probe_n("frames_admitted", n_adm as u64);
